@@ -426,6 +426,18 @@ fn run(payload: &str) -> String {
             }
             continue;
         }
+        if let Some(c) = piece.strip_prefix("cancel:").and_then(|c| c.parse::<usize>().ok()) {
+            // CANCELLATION: the future of consumer c is dropped while it is (possibly) pending, as a timeout wrapper or
+            // select! does. Whatever it left behind in the cache must not keep later requests from making progress.
+            if c >= k || sync {
+                outs.push("bad-op".to_string());
+            } else if futs[c].take().is_some() {
+                outs.push(format!("x{}!{}", counts(&script), dots(&log.lock().unwrap())));
+            } else {
+                outs.push("idle".to_string());
+            }
+            continue;
+        }
         if piece == "sx" {
             // a SYNC request on this set, whatever its mode: on an asynchronous set it must be refused at once
             // (Err(SyncRequestInAsyncMode)) without asking the source, registering a waker or waking anybody;
